@@ -150,6 +150,7 @@ def build(ctx, d, tree_type, rows, concrete_tau=None):
     v.trees = []
     v.columns = [f'v{j}' for j in range(d)]
     v.train_vine(tree_type)
+    v.fitted = True
     return v
 
 
@@ -246,16 +247,12 @@ def clamp_case():
 
 
 def likelihood_case(d, tree_type):
-    """get_likelihood(u) = sum over all edges of log c_e(F(a|D), F(b|D)); no uninitialised memory"""
+    """get_likelihood(u) = sum over all edges of log c_e(F(a|D), F(b|D)); no uninitialised memory.
+    The tau matrix is symbolic: every structure the construction can produce is covered."""
     def fn(ctx):
         p1, p2 = patches()
         with p1, p2:
-            # a concrete, generic tau matrix fixes one structure per run (structures are covered in C16)
-            rs = np.random.RandomState(d * 7 + len(tree_type))
-            T = rs.uniform(-0.9, 0.9, size=(d, d))
-            T = (T + T.T) / 2
-            np.fill_diagonal(T, 1.0)
-            v = build(ctx, d, tree_type, 2, concrete_tau=T)
+            v = build(ctx, d, tree_type, 1)
             n_fit = len(LBiv.calls)
             x = np.empty((1, d), dtype=object)
             for j in range(d):
@@ -265,7 +262,7 @@ def likelihood_case(d, tree_type):
             val = v.get_likelihood(x)
             calls = LBiv.calls[n_fit:]
         return v, val, calls
-    paths, ex, _ = explore(fn, max_paths=2000, tlimit=200)
+    paths, ex, _ = explore(fn, max_paths=20000, tlimit=400)
     res = []
     bad = []
     for p in paths:
